@@ -185,6 +185,10 @@ pub struct ThreadSt {
 	pub last_acquired: Vec<(u32, Mode)>,
 	/// poison flags whose exclusive hold is being unwound by this thread: (flag, leaves under the flag)
 	pub inflight: Vec<(u32, Vec<u32>)>,
+	/// one-shot: the next raw try operation issued by this thread panics instead (concurrent fault families)
+	pub fault_next_try: bool,
+	/// the hidden-flag digest this thread last ran under
+	pub hidden_seen: u64,
 }
 
 #[derive(Clone, Debug, serde::Serialize, serde::Deserialize)]
@@ -220,6 +224,9 @@ pub struct Inner {
 	pub blocked_seen: bool,
 	pub machinery_error: Option<String>,
 	pub decider: Option<Decider>,
+	/// digest of the library's hidden shared flags (poison flags); what a thread read from them while it
+	/// ran is part of its local state, so the digest enters its observation hash whenever it changed
+	pub hidden_probe: Option<HiddenProbe>,
 	/// leaves held by a guard that was leaked with mem::forget (never released)
 	/// sequential mode: at environment step n (the foreign holders release because the subject blocks) the
 	/// foreign thread additionally takes this lock if it is free (hand-over patterns)
@@ -364,6 +371,14 @@ impl Inner {
 		}
 	}
 
+	fn hidden_digest_with(&self, p: &HiddenProbe) -> u64 {
+		let mut h = p();
+		for (_, op) in &self.faults_fired {
+			h = mix(h, 0xdead_0000 | (op.lock as u64) << 4 | op.act as u64);
+		}
+		h
+	}
+
 	pub fn thread_enabled(&self, tid: usize) -> bool {
 		let th = &self.threads[tid];
 		if th.status != Status::Parked {
@@ -506,13 +521,14 @@ pub enum Decision {
 /// The scheduling policy of an execution; called (under the execution lock) by whichever
 /// thread made the execution quiescent.
 pub type Decider = Box<dyn FnMut(&mut Inner) -> Decision + Send>;
+pub type HiddenProbe = Box<dyn Fn() -> u64 + Send>;
 
 impl Exec {
 	pub fn new(gran: Gran, policy: Policy, nthreads: usize, is_rw: Vec<bool>) -> Arc<Exec> {
 		let nlocks = is_rw.len();
 		let mut threads = vec![];
 		for _ in 0..MAXT {
-			threads.push(ThreadSt { status: Status::Finished, pending: None, result: false, chosen: 0, obs: 0, local: 0, use_local: false, pc: 0, ctx: CallCtx::none(), call_serial: 0, outcome: None, retry_rounds: 0, points: 0, last_acq_seq: vec![], last_acquired: vec![], inflight: vec![] });
+			threads.push(ThreadSt { status: Status::Finished, pending: None, result: false, chosen: 0, obs: 0, local: 0, use_local: false, pc: 0, ctx: CallCtx::none(), call_serial: 0, outcome: None, retry_rounds: 0, points: 0, last_acq_seq: vec![], last_acquired: vec![], inflight: vec![], fault_next_try: false, hidden_seen: 0 });
 		}
 		for t in threads.iter_mut().take(nthreads) {
 			t.status = Status::NotStarted;
@@ -542,6 +558,7 @@ impl Exec {
 				blocked_seen: false,
 				machinery_error: None,
 				decider: None,
+				hidden_probe: None,
 				post_release_points: false,
 				env_script: vec![],
 				leaked: vec![],
@@ -575,7 +592,19 @@ impl Exec {
 		self.lock().decider = Some(d);
 	}
 	pub fn clear_decider(&self) {
-		self.lock().decider = None;
+		let mut g = self.lock();
+		g.decider = None;
+		g.hidden_probe = None;
+	}
+	/// Install the hidden-flag probe; every thread starts out having seen the current digest.
+	pub fn set_hidden_probe<'a>(&self, p: Box<dyn Fn() -> u64 + Send + 'a>) {
+		let p: HiddenProbe = unsafe { std::mem::transmute(p) };
+		let mut g = self.lock();
+		let h = g.hidden_digest_with(&p);
+		for t in g.threads.iter_mut() {
+			t.hidden_seen = h;
+		}
+		g.hidden_probe = Some(p);
 	}
 
 	fn quiescent(g: &Inner) -> bool {
@@ -595,6 +624,15 @@ impl Exec {
 			}
 		}
 		g.last = Some(tid);
+		if let Some(pr) = g.hidden_probe.take() {
+			let h = g.hidden_digest_with(&pr);
+			g.hidden_probe = Some(pr);
+			if h != g.threads[tid].hidden_seen {
+				g.threads[tid].hidden_seen = h;
+				let o = mix(g.threads[tid].obs, 0x41dd_0000_0000_0000 ^ h);
+				g.threads[tid].obs = o;
+			}
+		}
 		let p = g.threads[tid].pending.take().unwrap();
 		let mut res = true;
 		match &p {
@@ -800,8 +838,24 @@ pub fn raw_op(lock: u32, act: Act, mode: Mode) -> bool {
 			drop(g);
 			return abort_point().0;
 		}
+		if lock as usize >= g.locks.len() {
+			// the lock table is not declared yet (world construction): stay consistent with the
+			// registration touch, which reports the lock as busy
+			return act != Act::Try;
+		}
 		// 1. fault check
 		let idx = g.raw_counter;
+		if g.threads[tid].fault_next_try && act == Act::Try {
+			g.threads[tid].fault_next_try = false;
+			g.faults_fired.push((idx, op));
+			let call = g.threads[tid].ctx.serial;
+			g.log(tid, call, EvKind::Fault { op });
+			g.threads[tid].ctx.raw_ops += 1;
+			let o = mix(g.threads[tid].obs, 0xfa17 << 20 | (lock as u64) << 8 | act as u64);
+			g.threads[tid].obs = o;
+			drop(g);
+			resume_unwind(Box::new(FaultToken(op)));
+		}
 		if g.fault_armed {
 			g.raw_counter += 1;
 			let fire = match &g.fault {
@@ -927,6 +981,24 @@ pub fn start_point() {
 }
 
 /// Record an observation of the calling thread (enters its observation hash).
+/// Arm (or disarm) the calling thread's one-shot try fault.
+pub fn set_fault_next_try(on: bool) -> bool {
+	match ctx() {
+		Some((exec, tid)) => {
+			let mut g = exec.lock();
+			let was = g.threads[tid].fault_next_try;
+			g.threads[tid].fault_next_try = on;
+			was
+		}
+		None => false,
+	}
+}
+
+/// Has any injected raw-operation fault fired in this execution (so some lock may be killed)?
+pub fn any_fault_fired() -> bool {
+	ctx().map(|(e, _)| !e.lock().faults_fired.is_empty()).unwrap_or(false)
+}
+
 pub fn observe(v: u64) {
 	if let Some((exec, tid)) = ctx() {
 		let mut g = exec.lock();
